@@ -372,6 +372,8 @@ def comment_growth(t1, t2):
             k = j - 1
             while k >= 0 and not (_indent(l1[k]) < _indent(l1[j]) and l1[k].rstrip().endswith("{")):
                 k -= 1
+            while k >= 0 and opener[k] is not None:      # the block header itself spans lines (a comment in it)
+                k = opener[k]
             if k < 0:
                 locs.add("top-level")
             elif l1[k].lstrip().lower().startswith("@media"):
@@ -444,23 +446,29 @@ def refine(f, text, cause):
             return " [unrecognised shape]"
         if cause.startswith("string: escaped double quote") or cause.startswith("string/url: backslash"):
             from css_parser import helper
-            want = "double quote preceded by an odd number" if cause.startswith("string: escaped") else "backslash"
-            ok = False
+            dq = cause.startswith("string: escaped")
+            ok_s = ok_u = False
             for t in _tok1(text, True):
                 if t[0] == "STRING":
                     v = _stv(t)
-                    if want in feature(v):
+                    if (rep_ok(v) == "dquote") if dq else ("\\" in v):
                         if "NOT" in head_tag(v):
                             return " [string written differently from the reference helper.string]"
-                        ok = True
+                        ok_s = True
                 elif t[0] == "URI":
                     v = helper.urivalue(t[1])
-                    if want in feature(v):
+                    if (rep_ok(v) == "dquote") if dq else ("\\" in v):
                         if helper.uri(v) != ref_uri(v):
                             return " [url written differently from the reference helper.uri]"
-                        ok = True
-            return " [input has such a value, written as the reference helper.string / helper.uri writes it]" if ok \
-                else " [no such string value in the input]"
+                        ok_u = True
+            if dq:
+                return " [input has such a value, written as the reference helper.string / helper.uri writes it]" if ok_s or ok_u \
+                    else " [no such string value in the input]"
+            # since the repair of helper.string a STRING value with a backslash is read back; what is left is helper.uri,
+            # which writes a value without '(', ')', white space, ';', ',' or quotes bare, backslashes included
+            if ok_u:
+                return " [input has a url() value with a backslash, written as the reference helper.uri writes it]"
+            return " [only string values have a backslash]" if ok_s else " [no such value in the input]"
         if cause.startswith("attribute selector:"):
             m = re.search(r"\['([^']*)', '[^']*'\] != ", d)
             dflt = _e2e()._parse(text).namespaces.get("", None)
